@@ -136,7 +136,7 @@ func runOverlap(t *testing.T, scenario string) string {
 		tc := &trackConn{Conn: memcache.Open(), live: map[string]bool{}}
 		dsn := registerConn(tc)
 		defer unregisterConn(dsn)
-		org := &ovOrigin{gen: map[string]int{}, vary: scenario != "replace" && scenario != "foreground-validated", release: make(chan struct{}), held: make(chan string, 8)}
+		org := &ovOrigin{gen: map[string]int{}, vary: scenario != "replace" && !strings.HasPrefix(scenario, "foreground-"), release: make(chan struct{}), held: make(chan string, 8)}
 		rt := httpcache.NewTransport(dsn, httpcache.WithUpstream(org), httpcache.WithSWRTimeout(30*time.Second))
 		target := "http://a.test/doc"
 		do := func(method, lang, cc string) ovResult {
@@ -222,6 +222,43 @@ func runOverlap(t *testing.T, scenario string) string {
 				v = "BAD"
 			}
 			line = fmt.Sprintf("OVERLAP scenario=%s | first=%s/%s in_flight=%s/%s meanwhile=%s/%s later=%s/%s problems=%q %s\n", scenario, r1.status, r1.gen, ra.status, ra.body, rb.status, rb.gen, rc.status, rc.gen, strings.Join(problems, " ; "), v)
+			return
+		}
+		if scenario == "foreground-invalidated" {
+			// C19: a validation in the foreground is in flight (its 304 decided) when an unsafe request invalidates the entry;
+			// the 304 arrives afterwards and is written back.  Whatever that leaves in the store, the next invalidation of the
+			// URI removes it: no key without an index.
+			org.cc = "no-cache"
+			r1 := do("GET", lang, "")
+			org.mu.Lock()
+			org.holdNext = 1
+			org.mu.Unlock()
+			done := make(chan ovResult, 1)
+			go func() { done <- do("GET", lang, "") }()
+			if !heldNow() {
+				line = fmt.Sprintf("OVERLAP scenario=%s | the validation did not reach the origin (first=%s) SKIP\n", scenario, r1.status)
+				close(org.release)
+				settle()
+				return
+			}
+			p1 := do("POST", "", "")
+			mid := len(tc.keys())
+			close(org.release)
+			ra := <-done
+			settle()
+			after304 := len(tc.keys())
+			p2 := do("POST", "", "")
+			settle()
+			left := tc.keys()
+			if len(left) != 0 {
+				problems = append(problems, fmt.Sprintf("orphan-after-invalidation: %d keys left in the store after the second unsafe request: %q", len(left), left))
+			}
+			v := "ok"
+			if len(problems) > 0 {
+				v = "BAD"
+			}
+			line = fmt.Sprintf("OVERLAP scenario=%s | first=%s in_flight=%s post=%s keys_after_post=%d keys_after_late_304=%d second_post=%s keys_left=%d problems=%q %s\n",
+				scenario, r1.status, ra.status, p1.status, mid, after304, p2.status, len(left), strings.Join(problems, " ; "), v)
 			return
 		}
 		r1 := do("GET", lang, "")
@@ -337,7 +374,7 @@ func TestOverlap(t *testing.T) {
 		t.Skip("VERIF_OUT not set")
 	}
 	var lines []string
-	for _, sc := range []string{"replace", "second-variant-stored", "second-variant-invalidated", "second-variant-stale", "invalidated", "foreground-validated"} {
+	for _, sc := range []string{"replace", "second-variant-stored", "second-variant-invalidated", "second-variant-stale", "invalidated", "foreground-validated", "foreground-invalidated"} {
 		lines = append(lines, runOverlap(t, sc))
 	}
 	if err := writeLines(filepath.Join(out, "overlap.txt"), lines); err != nil {
